@@ -181,7 +181,9 @@ func TestC16(t *testing.T) {
 
 	// InvalidationIndex and Invalidator
 	idxOps := []raceOp{
-		{"AddLabels", func(e *raceEnv, g, i int) { e.idx.AddLabels(fmt.Sprintf("n%d", i%3), []byte(fmt.Sprintf("k%d", i%6)), "A", "B") }},
+		{"AddLabels", func(e *raceEnv, g, i int) {
+			e.idx.AddLabels(fmt.Sprintf("n%d", i%3), []byte(fmt.Sprintf("k%d", i%6)), "A", "B")
+		}},
 		{"AddCache", func(e *raceEnv, g, i int) { e.idx.AddCache(fmt.Sprintf("n%d", i%3), e.b.Deleter()) }},
 		{"InvalidateByLabels", func(e *raceEnv, g, i int) { _, _ = e.idx.InvalidateByLabels(ctx, "A") }},
 		{"InvalidateFailing", func(e *raceEnv, g, i int) { _, _ = e.idx.InvalidateByLabels(ctx, "A", "B") }},
